@@ -1,8 +1,12 @@
 import TallyVerif.Driver.Util
 import TallyVerif.Model.Csv
+import TallyVerif.Driver.Strptime
 /-! Driver ops of the `Csv` component (property C05).
 
-* `csv`    — `Csv.parseFile` on tokenised rows with the recorded `float()` / `strptime` results;
+* `csv`    — `Csv.parseFile` on tokenised rows with the recorded `float()` results; dates are read by the MODEL of
+             `datetime.strptime` (`Strptime.oracles`, with CPython's character tables for the non-ASCII characters of the
+             case under `tables`) when the case says `"strptime_model": true` (C05), else looked up in the recorded
+             `dates` table (the `pipeline` op of C11/C16);
              with a `text` key: `Csv.iterRows` (tokenisation of the file text); with a `write` key: `Csv.writeCsv`
 * `amount` — `Csv.cleanAmount` / `Csv.parseAmountExact` of one cell, or `Csv.render` of one number
 * `spaces` — the code points `Csv.isPySpace` accepts (compared with `str.isspace`)
@@ -45,6 +49,7 @@ private def table (j : Json) (k : String) : List (String × Option String) :=
 private def errName : Err → String
   | .shortRow => "short" | .emptyField => "empty" | .valueError => "ValueError" | .indexError => "IndexError"
   | .nonFinite => "nonfinite" | .zero => "zero" | .keyError => "KeyError" | .attributeError => "AttributeError"
+  | .reError => "error"
   | .unsupported => "unsupported"
 
 private def optJson (o : Option Str) : Json := match o with | some s => str s | none => .null
@@ -85,6 +90,17 @@ def handleWrite (j : Json) : Json :=
   let text := writeCsv d rows
   obj [("text", str text), ("read_back", rowsJson (readCsv d text))]
 
+/-- `float()` from the recorded table; `strptime` from the model (`"strptime_model": true`) or from the recorded table -/
+def csvOracles (j : Json) (floats dates : List (String × Option String)) : Oracles :=
+  let pyFloat : Str → Option F64 := fun s => match floats.lookup (String.ofList s) with
+    | some (some b) => some (F64.ofBits (b.toNat?.getD 0))
+    | _ => none
+  if jbool j "strptime_model" then TallyVerif.Strptime.oracles (strpTablesOfJson j) pyFloat else
+  { pyFloat := pyFloat
+    strptime := fun _ tok => match dates.lookup (String.ofList tok) with
+      | some (some d) => .ok d.toList
+      | _ => .error .valueError }
+
 def handleCsv (j : Json) : Json :=
   if (j.getObjVal? "text").isOk then handleTokenise j else
   if (j.getObjVal? "write").isOk then handleWrite j else
@@ -94,13 +110,7 @@ def handleCsv (j : Json) : Json :=
                      skipNonFinite := jbool c "fixed" }
   let floats := table j "floats"
   let dates := table j "dates"
-  let o : Oracles :=
-    { pyFloat := fun s => match floats.lookup (String.ofList s) with
-        | some (some b) => some (F64.ofBits (b.toNat?.getD 0))
-        | _ => none
-      strptime := fun _ tok => match dates.lookup (String.ofList tok) with
-        | some (some d) => some d.toList
-        | _ => none }
+  let o : Oracles := csvOracles j floats dates
   let rows : List (List Str) := (jarr j "rows").map fun r => (asStrList r).map String.toList
   -- oracle questions the model asks that the implementation never asked
   let misses : List Json := rows.flatMap fun row =>
@@ -114,10 +124,10 @@ def handleCsv (j : Json) : Json :=
       match dateToken spec ds with
       | none => []
       | some tok =>
-        match dates.lookup (String.ofList tok) with
-        | none => [Json.arr #[.str "strptime", str tok]]
-        | some none => []
-        | some (some _) =>
+        if !jbool j "strptime_model" && (dates.lookup (String.ofList tok)).isNone then [Json.arr #[.str "strptime", str tok]] else
+        match o.strptime spec.dateFormat tok with
+        | .error _ => []
+        | .ok _ =>
           let cl := (cleanAmount cfg.eu am).2
           match floats.lookup (String.ofList cl) with
           | none => [Json.arr #[.str "float", str cl]]
@@ -171,13 +181,7 @@ def csvParseJson (j : Json) : Except Err (List Txn) :=
                      skipNonFinite := jbool c "fixed" }
   let floats := table j "floats"
   let dates := table j "dates"
-  let o : Oracles :=
-    { pyFloat := fun s => match floats.lookup (String.ofList s) with
-        | some (some b) => some (F64.ofBits (b.toNat?.getD 0))
-        | _ => none
-      strptime := fun _ tok => match dates.lookup (String.ofList tok) with
-        | some (some d) => some d.toList
-        | _ => none }
+  let o : Oracles := csvOracles j floats dates
   let rows : List (List Str) := (jarr j "rows").map fun r => (asStrList r).map String.toList
   parseFile o cfg rows
 
